@@ -24,6 +24,3 @@ def run(tier, rep):
         "floating-point results are compared as values (any NaN equals any NaN)",
     ]
 
-
-def replay(path):
-    return modes.replay(path, "C13")
